@@ -13,7 +13,7 @@ import vlib
 
 LEVEL = "model_checking"
 
-DEFECTS = ["SharedMatchSet", "EmptyServerName", "IfGivenForRequire", "PlainWhenNotReady", "SkipVerifyLeftOn"]
+DEFECTS = ["SharedMatchSet", "EmptyServerName", "IfGivenForRequire", "PlainWhenNotReady", "SkipVerifyLeftOn", "StaleOnEqualHash"]
 
 
 def mismatches(txt):
@@ -55,21 +55,24 @@ def run(ctx):
     # ---------- 2b. a seeded sample of the same cases end to end: TLS listeners / TLS clusters of an in-process MOSN
     rng = random.Random(ctx.seed)
     groups, order, ups = {}, [], []
+    n_direct = 0          # a case with an update history is run twice: static and SDS backed contexts
     with open(cases) as fh:
         for ln in fh:
             c = json.loads(ln)
+            n_direct += 2 if c["upds"] else 1
             if c["side"] == "up":
-                ups.append(ln)
+                if not c["upds"]:      # cluster TLS updates are replayed in direct mode only
+                    ups.append(ln)
                 continue
-            k = json.dumps([c["ctxs"], c["insp"]], sort_keys=True)
+            k = json.dumps([c["ctxs"], c["insp"], c["upds"]], sort_keys=True)
             if k not in groups:
                 groups[k] = []
                 order.append(k)
             groups[k].append((c, ln))
 
-    def special(g):   # client-auth matrix, inspector and readiness groups are always taken
+    def special(g):   # client-auth matrix, inspector, readiness and update-history groups are always taken
         c = g[0][0]
-        return c["insp"] or any(x["verify"] or x["require"] for x in c["ctxs"]) or any(y[0]["first"] == "plain" for y in g)
+        return bool(c["upds"]) or c["insp"] or any(x["verify"] or x["require"] for x in c["ctxs"]) or any(y[0]["first"] == "plain" for y in g)
     keep = [k for k in order if special(groups[k])]
     rest = [k for k in order if not special(groups[k])]
     keep += rng.sample(rest, min(len(rest), 40 if q else 250))
@@ -80,7 +83,7 @@ def run(ctx):
                 fh.write(ln)
         for ln in ups:
             fh.write(ln)
-    n_e2e = sum(len(groups[k]) for k in keep) + len(ups)
+    n_e2e = sum(len(groups[k]) * (2 if groups[k][0][0]["upds"] else 1) for k in keep) + len(ups)
     e2e_trace = os.path.join(ctx.tmp, "c13_e2e.ndjson")
     for attempt in (1, 2):
         try:
@@ -94,7 +97,7 @@ def run(ctx):
     ctx.cov["traces_validated_against_impl"] = 0
     ctx.cov["outcomes"] = {}
     first_sample = True
-    for part, tpath, expect_n in (("direct", trace, ncases), ("e2e", e2e_trace, n_e2e)):
+    for part, tpath, expect_n in (("direct", trace, n_direct), ("e2e", e2e_trace, n_e2e)):
         evs = vlib.read_jsonl(tpath)
         nreal = sum(1 for e in evs if e["ev"] in ("hs", "up"))
         if nreal != expect_n:
@@ -108,6 +111,10 @@ def run(ctx):
         ctx.cov["traces_validated_against_impl"] += sum(1 for e in evs if e["ev"] in ("mgr", "up"))
         ctx.cov["evaluations"] += nreal
         ctx.cov.setdefault("trace_events", {})[part] = len(evs)
+        ctx.cov.setdefault("updates_pushed", {})[part] = {
+            path: sum(1 for e in evs if e["ev"] == "upd" and e["path"] == path) +
+                  sum(1 for e in evs if e["ev"] == "up" for u in e.get("upds", []) if u["path"] == path)
+            for path in ("sds-push", "config-update")}
         kinds = {}
         for e in evs:
             if e["ev"] == "mgr":
@@ -122,11 +129,13 @@ def run(ctx):
             "upstream_ok": sum(1 for e in evs if e["ev"] == "up" and e["ok"]),
             "upstream_refused": sum(1 for e in evs if e["ev"] == "up" and not e["ok"]),
         }
-        mgr_at, cur = {}, None
+        mgr_at, upd_at, cur, upds = {}, {}, None, []
         for i, e in enumerate(evs, 1):
             if e["ev"] == "mgr":
-                cur = e
-            mgr_at[i] = cur
+                cur, upds = e, []
+            elif e["ev"] == "upd":
+                upds = upds + [{k: e[k] for k in ("pos", "field", "val", "path", "kind")}]
+            mgr_at[i], upd_at[i] = cur, upds
         if first_sample:
             first_sample = False
             for want in ("hs", "up"):
@@ -137,7 +146,8 @@ def run(ctx):
 
         def fail(line, kind):
             e = evs[line - 1]
-            detail = dict(via=part, line=line, event=e, config=brief(mgr_at.get(line)) if e["ev"] != "up" else None)
+            detail = dict(via=part, line=line, event=e, config=brief(mgr_at.get(line)) if e["ev"] != "up" else None,
+                          updates_since_config=upd_at.get(line) if e["ev"] != "up" else e.get("upds"))
             vlib.report_failure(ctx, "C13:" + kind, detail)
 
         for line, ks in sorted(mm.items()):
@@ -152,7 +162,9 @@ def run(ctx):
                        "server_name, ALPN lists, not-ready SDS contexts), ClientHello (SNI none/exact/wildcard depth 1-2/upper-case/"
                        "unknown/ALPN-token, ALPN set, TLS 1.2|1.3)> + the client-auth matrix (4 modes x own/other CA per context x "
                        "6 peer kinds x 2 versions, 1-2 contexts) + inspector x first-byte x readiness + upstream (server_name x "
-                       "insecure_skip x CA x certificate issuer/expiry) enumerated by TLC from TLSSelectMC; all replayed into the real context "
+                       "insecure_skip x CA x certificate issuer/expiry) + update histories of 1-2 single-field updates (ca, names, server_name, alpn, "
+                       "verify, require / skip, ca, server_name) on contexts already in use, each run with static contexts (listener/cluster "
+                       "config update) and with SDS contexts (secret push or in-place re-configuration), enumerated by TLC from TLSSelectMC; all replayed into the real context "
                        "managers, and a seeded sample (all auth/inspector/upstream cases + %d context lists) again through listeners and "
                        "TLS clusters of an in-process MOSN" % (8 if q else 11, 40 if q else 250))
     ctx.cov["exhaustive"] = True
